@@ -595,6 +595,28 @@ func checkC03(w *World, r *Report) {
 		}
 	}
 
+	// R7: the inbox becomes idle only where a re-check follows: in the worker's epilogue (R2) and in Start (R3). Any
+	// other transition to idle (a scheduler that "backs off", a reset) can strand a message pushed just before it.
+	{
+		r.Rule("C03.R7", "only the worker's release and Inboxer.Start make the inbox idle; the process machine opens the inbox on every successful (re)start", 2)
+		var others []string
+		for _, op := range ir.ops {
+			if op.new != ir.idle || ir.idle == "" {
+				continue
+			}
+			if (op.fn == ir.worker && op.kind == "CAS" && op.old == ir.running) || op.fn == ir.start {
+				continue
+			}
+			others = append(others, fmt.Sprintf("%s at %s", op.String(), w.pos(op.call.Pos())))
+		}
+		r.Check(len(others) == 0, "C03.R7", "Inbox.status:idle-writers", "only the worker's release and Start make the inbox idle", w.fnPos(ir.send),
+			"the status is also set to idle by "+strings.Join(others, "; ")+": no re-check of the ring follows that transition, a message pushed just before it stays in an idle inbox")
+		if r.Prop == "C03" {
+			if pr := w.findProcRoles(); !pr.fail(r, "C03.R7") && pr.lta != nil {
+				pr.lta.export(r, "C03.R7", []string{"spawn-leaves-inbox-closed"}, "a process that finished Start has its inbox open, whatever happened on the way (crash in Initialized/Started, restart)")
+			}
+		}
+	}
 	// R6: Len() is what the re-check reads: its accounting must be sound under concurrency
 	if r.Prop == "C03" {
 		r.Rule("C03.R6", "the ring's length accounting and locking are sound (C14.R1-R3): Len() never under-reports a pushed element", 8)
